@@ -361,7 +361,9 @@ func (g *gen) add(fd int) {
 
 // victim picks a live connection: first / middle / last by position (gc_opt:
 // the (row,column) of its GFD; map: creation order) or a random one.
-func (g *gen) victim() (int, string) {
+func (g *gen) victim() (int, string) { return g.victimShape(-1) }
+
+func (g *gen) victimShape(shape int) (int, string) {
 	ids := g.liveIDs()
 	if len(ids) == 0 {
 		return 0, ""
@@ -391,7 +393,10 @@ func (g *gen) victim() (int, string) {
 			ids[len(ids)-1], ids[hi] = ids[hi], ids[len(ids)-1]
 		}
 	}
-	switch g.rnd.Intn(8) {
+	if shape < 0 {
+		shape = g.rnd.Intn(8)
+	}
+	switch shape {
 	case 0:
 		return ids[0], "del-first"
 	case 1:
@@ -403,8 +408,43 @@ func (g *gen) victim() (int, string) {
 	}
 }
 
-func (g *gen) del() {
-	id, cls := g.victim()
+func (g *gen) del() { g.delShape(-1) }
+
+// toPopulation registers fresh descriptors / removes random connections until exactly n are live.
+func (g *gen) toPopulation(n int) {
+	for len(g.s.ref) < n && !g.s.failed && !g.s.dead {
+		g.add(g.freshFd())
+	}
+	for len(g.s.ref) > n && !g.s.failed && !g.s.dead {
+		g.delShape(3 + g.rnd.Intn(2)) // random
+	}
+}
+
+// aroundBoundary exercises removals and registrations with the population at
+// and next to a multiple of the column width (last entry in the last column,
+// first entry of a fresh row, row release and re-allocation).
+func (g *gen) aroundBoundary(b int) {
+	for _, target := range []int{b + 1, b, b - 1, b, b + 2, b} {
+		g.toPopulation(target)
+		g.delShape(0) // first
+		g.add(g.freshFd())
+		g.add(g.freshFd())
+		g.toPopulation(target)
+		g.delShape(2) // middle
+		if g.s.haveLastDel && !g.s.refHas(g.s.lastDelFd) {
+			g.add(g.s.lastDelFd)
+		}
+		g.add(g.freshFd())
+		g.toPopulation(target)
+		g.delShape(1) // last
+		g.add(g.freshFd())
+		g.s.exec(tr.L("count"))
+		w.Tag("at-row-boundary")
+	}
+}
+
+func (g *gen) delShape(shape int) {
+	id, cls := g.victimShape(shape)
 	if cls == "" {
 		return
 	}
@@ -574,6 +614,14 @@ func (g *gen) bigCase(n int, dels int) {
 		for i := 0; i < 8; i++ {
 			g.add(g.freshFd())
 		}
+		g.checkpoint(false)
+	}
+	if !s.failed && !s.dead {
+		b := len(s.ref) / gnet.VerifRegistryColMax * gnet.VerifRegistryColMax
+		if b == 0 {
+			b = gnet.VerifRegistryColMax
+		}
+		g.aroundBoundary(b)
 		g.checkpoint(false)
 	}
 	g.iter(0, 0, -1)
